@@ -129,6 +129,18 @@ def check_kernels(chk, v, prog):
             else:
                 others = [c["name"].split("::")[-1] for c in calls(ps) if "operator" in c["name"] and "operator*" not in c["name"]]
                 problems = ["the result is updated with %s, expected operator%s" % (others, op)]
+        # a bound read through an operand's processor is a finding of its own (the operand may have been created by another thread:
+        # its processor is that thread's); any other deviation from the one-statement form is a mechanism this rule does not model
+        # (a functor applied per element, a helper shared by the three kernels): undecided, not a violation
+        foreign = [l_ for q_ in ps for l_ in q_["loops"] if "var" in l_ and any(
+            st_[0] == "fld" and st_[2] == "Ns2" and sym.root_of(st_) in (sym.sym(a), sym.sym(b)) for st_ in sym.subterms(l_["hi"]))]
+        if foreign:
+            chk.refuted("R5", key, where=f.where, variant=vn,
+                        detail="the loop at line %s runs to %s: the number of points is read through the processor of an operand, not of the polynomial "
+                               "being written (the operand's processor belongs to the thread that created the operand)" % (foreign[0].get("l"), sym.show(foreign[0]["hi"])[:60]))
+            continue
+        if problems and not any(pr_.startswith("range ") for pr_ in problems):
+            chk.broken("%s (%s C++): %s" % (name, v.backend, "; ".join(problems)[:200]))
         chk.require(not problems, "R5", key, where=f.where, ok="rr[i] %s aa[i]*bb[i] over [0, Ns2) on std::complex<double>" % op,
                     bad="; ".join(problems), variant=vn)
     chk.vcount(vn, "R5.pointwise_kernels", len(found))
